@@ -3,5 +3,5 @@
 set -e
 cd "$(dirname "$0")"
 cp ../coq/model.ml ../coq/model.mli .
-ocamlfind ocamlopt -O2 -w -a -package str model.mli model.ml codec.ml flw_driver.ml lg_driver.ml oracle_driver.ml driver.ml -o driver 2>/dev/null || \
-ocamlfind ocamlopt -w -a model.mli model.ml codec.ml flw_driver.ml lg_driver.ml oracle_driver.ml driver.ml -o driver
+ocamlfind ocamlopt -O2 -w -a -package str model.mli model.ml codec.ml flw_driver.ml lg_driver.ml fmt_driver.ml oracle_driver.ml driver.ml -o driver 2>/dev/null || \
+ocamlfind ocamlopt -w -a model.mli model.ml codec.ml flw_driver.ml lg_driver.ml fmt_driver.ml oracle_driver.ml driver.ml -o driver
